@@ -232,6 +232,16 @@ func (x *unifierUser) Check(fail, _ bool) bool {
 	}
 	return err == nil
 }
+// CheckCancelled is a working forced check whose caller has already gone away (its context is done).
+func (x *unifierUser) CheckCancelled() error {
+	x.disc.mu.Lock()
+	x.disc.fail = false
+	x.disc.mu.Unlock()
+	ctx, cancel := context.WithCancel(context.Background())
+	cancel()
+	return x.lu.ForceEndpointCheck(ctx, x.ep.URLString)
+}
+
 func (x *unifierUser) Advance(d time.Duration) { x.lu.VerifBreaker(x.ep.URLString).VerifShift(d) }
 func (x *unifierUser) Close()                  {}
 
@@ -272,6 +282,40 @@ func runUser(c UserCase) []ev.Violation {
 			b.Advance(d)
 			m.advance(d)
 			trace = append(trace, fmt.Sprintf("+%v", d))
+		case 'c':
+			// (unifier) a working check whose caller's context is already done: either it goes through
+			// (admitted, success), or it is turned away, or it is admitted and ends as a failure; what it
+			// must not do is take a probe slot and never report an outcome (judged by the suffix)
+			uc, ok := b.(interface{ CheckCancelled() error })
+			if !ok {
+				continue
+			}
+			before := m.describe()
+			err := uc.CheckCancelled()
+			alts := []func(*model) bool{}
+			if err == nil {
+				alts = append(alts, func(x *model) bool { ok, _ := x.ask(true); x.success(); return ok })
+			} else {
+				alts = append(alts, func(x *model) bool { ok, _ := x.ask(false); return ok },
+					func(x *model) bool { ok, _ := x.ask(true); x.failure(); return ok })
+			}
+			union := map[st]bool{}
+			for _, f := range alts {
+				cl := &model{p: m.p, states: map[st]bool{}}
+				for k := range m.states {
+					cl.states[k] = true
+				}
+				if f(cl) {
+					for k := range cl.states {
+						union[k] = true
+					}
+				}
+			}
+			trace = append(trace, fmt.Sprintf("c=%v", err == nil))
+			if len(union) == 0 {
+				return []ev.Violation{{Sig: c.Kind + "/viauser/cancelled-check-answer-not-allowed", Detail: fmt.Sprintf("%s breaker driven through its user, ops=%q trace=%v: a check with a finished context returned err=%v, which no reading allows in {%s}", c.Kind, c.Ops, trace, err, before)}}
+			}
+			m.states = union
 		case 'f', 'R', 's':
 			before := m.describe()
 			got := b.Check(op != 's', op == 'R')
@@ -367,11 +411,18 @@ func genUser(t *rapid.T) UserCase {
 		for i, k := 0, rapid.IntRange(3, 7).Draw(t, "k"); i < k; i++ {
 			ops += "t" + rapid.SampledFrom([]string{"f", "f", "s"}).Draw(t, "what")
 		}
+		if c.Kind == "unifier" && rapid.Bool().Draw(t, "gone-callers") {
+			// trip, wait out the timeout, then callers that have already gone away
+			ops = strings.Repeat("f", th) + "T" + strings.Repeat("c", rapid.IntRange(1, 5).Draw(t, "nc"))
+		}
 		c.Ops = ops
 		return c
 	}
 	n := rapid.IntRange(3, 14).Draw(t, "len")
 	w := "fffffsstTTw"
+	if c.Kind == "unifier" {
+		w = "fffffsstTTwcc"
+	}
 	if c.Kind == "health" {
 		w = "fffRssstTTw" // R costs ~300 ms of real retry pauses: kept rare
 	}
